@@ -324,7 +324,7 @@ pub fn observe_line(line: &str) -> Option<String> {
 /// digits, letters incl. F G V W Z and lower case, '+', '-', '_', space, NUL, two multi-byte characters
 fn alphabet() -> Vec<Vec<u8>> {
     let mut v: Vec<Vec<u8>> = Vec::new();
-    for c in "0123456789ABCDEFGMPQRSTVWXZabfgvz+-_ \0".chars() {
+    for c in "0123456789ABCDEFGHMPQRSTUVWXYZabcfgpvxz+-_ \0".chars() {
         v.push(c.to_string().into_bytes());
     }
     v.push("é".as_bytes().to_vec()); // 2 bytes
